@@ -22,7 +22,7 @@ const prop = "C10"
 
 // Op of a history over one environment.
 type Op struct {
-	Kind   string // start | stop | stop-taskfail (a task refuses STOP) | start-taskfail | start-hookfail | stop-hookfail | taskdeath | destroy (forced) |
+	Kind   string // start | stop | stop-taskfail (a task refuses STOP) | destroy-during-start | start-taskfail | start-hookfail | stop-hookfail | taskdeath | destroy (forced) |
 	//               destroy-graceful (allowInRunningState: the server stops the run first) | destroy-stopfail (that STOP fails: critical hook at Moment before/leave, or Moment task: a task refuses STOP)
 	Moment string // for *-hookfail: before | leave | enter | after
 }
@@ -94,6 +94,7 @@ func run(c Case) (res vh.Result) {
 	failKey := ""
 	failTasks := false
 	failStop := false
+	var startGate *simworld.Gate
 	w.OnProbe = func(p simworld.ProbeRec) simworld.ProbeReply {
 		if strings.HasPrefix(p.Arg, "crit:") {
 			mu.Lock()
@@ -115,9 +116,13 @@ func run(c Case) (res vh.Result) {
 		mu.Lock()
 		ft := failTasks
 		failStop := failStop
+		startGate := startGate
 		mu.Unlock()
 		if ft && cmd.Event == "START" && strings.HasSuffix(simworld.ClassOf(t), "t0") {
 			return simworld.Reply{Error: "simulated task failure", State: "CONFIGURED"}
+		}
+		if sg := startGate; sg != nil && cmd.Event == "START" && strings.HasSuffix(simworld.ClassOf(t), "t0") {
+			return simworld.Reply{Hold: sg}
 		}
 		if failStop && cmd.Event == "STOP" && strings.HasSuffix(simworld.ClassOf(t), "t0") {
 			return simworld.Reply{Error: "simulated task failure", State: "RUNNING"}
@@ -284,6 +289,63 @@ func run(c Case) (res vh.Result) {
 			r := runs[len(runs)-1]
 			r.endedBy = "task-death"
 			r.finalVars = userVars()
+		case "destroy-during-start":
+			// a forced destroy arrives while START_ACTIVITY is in flight (parked on a task's reply) and has to wait for it
+			if state != "CONFIGURED" || c.NTasks == 0 {
+				continue
+			}
+			g := simworld.NewGate()
+			mu.Lock()
+			startGate = g
+			mu.Unlock()
+			mark := w.Note("op %d destroy-during-start", oi)
+			type rr struct {
+				st  string
+				rn  uint32
+				err error
+			}
+			startDone, destroyDone := make(chan rr, 1), make(chan error, 1)
+			go func() {
+				rep, err := w.Control(id, pb.ControlEnvironmentRequest_START_ACTIVITY, 90*time.Second)
+				startDone <- rr{rep.GetState(), rep.GetCurrentRunNumber(), err}
+			}()
+			if !g.AwaitArrival(1, 10*time.Second) {
+				g.Open()
+				<-startDone
+				mu.Lock()
+				startGate = nil
+				mu.Unlock()
+				res.Inconclusive = "START did not reach the tasks"
+				simworld.Discard()
+				return
+			}
+			go func() {
+				_, err := w.Destroy(id, true, true, false, 90*time.Second)
+				destroyDone <- err
+			}()
+			time.Sleep(200 * time.Millisecond) // the teardown is now waiting for the transition
+			mu.Lock()
+			startGate = nil
+			mu.Unlock()
+			g.Open()
+			sr := <-startDone
+			derr := <-destroyDone
+			steps = append(steps, fmt.Sprintf("op %d destroy-during-start: START -> state=%s run=%d err=%v; destroy -> err=%v", oi, sr.st, sr.rn, sr.err, derr))
+			r := &runRec{startSeq: mark, startedOK: sr.err == nil && sr.rn != 0, endedBy: "teardown-queued-behind-start"}
+			for _, p := range w.Probes() {
+				if p.Seq > mark && p.Env == id && p.Arg == "before_START_ACTIVITY/+1" && p.Phase == "start" {
+					r.number = p.Vars["run_number"]
+				}
+				if p.Seq > mark && p.Env == id && strings.HasPrefix(p.Arg, "DESTROY/") && p.Phase == "start" {
+					r.finalVars = p.Vars
+				}
+			}
+			runs = append(runs, r)
+			if r.startedOK {
+				nRuns++
+			}
+			destroyed = true
+			errEnd = true
 		case "destroy-graceful", "destroy-stopfail":
 			if state != "RUNNING" {
 				continue
@@ -393,6 +455,19 @@ func run(c Case) (res vh.Result) {
 				if r.stopDone && s.run == r.number {
 					return fail("run-number-visible-after-stop", "run %s is still visible to hook %s (#%d) after its STOP_ACTIVITY finished", r.number, s.arg, s.seq)
 				}
+				// V9: what the run left behind is not stamped a second time before the next run starts (each of the four is set at
+				// most once per run): a later hook sees either nothing or the value the run ended with
+				nextStart := int64(1) << 62
+				if ri+1 < len(runs) {
+					nextStart = runs[ri+1].startSeq
+				}
+				if r.stopDone && s.seq < nextStart {
+					for i := range tsKeys {
+						if first[i] != "" && s.ts[i] != "" && s.ts[i] != first[i] {
+							return fail("timestamp-changed-after-run:"+tsKeys[i], "%s of run %s was %q when the run ended and is %q for hook %s (#%d) afterwards", tsKeys[i], r.number, first[i], s.ts[i], s.arg, s.seq)
+						}
+					}
+				}
 				continue
 			}
 			if s.arg == "before_START_ACTIVITY/-1" && !sawPlus {
@@ -494,7 +569,7 @@ func gen(t *rapid.T) Case {
 	for i := 0; i < n; i++ {
 		var op Op
 		if !running {
-			op.Kind = rapid.SampledFrom([]string{"start", "start", "start", "start", "start", "start-taskfail", "start-hookfail", "destroy"}).Draw(t, "kind")
+			op.Kind = rapid.SampledFrom([]string{"start", "start", "start", "start", "start", "start-taskfail", "start-hookfail", "destroy", "destroy-during-start"}).Draw(t, "kind")
 		} else {
 			op.Kind = rapid.SampledFrom([]string{"stop", "stop", "stop", "stop", "stop-hookfail", "stop-hookfail", "stop-taskfail", "taskdeath", "destroy", "destroy-graceful", "destroy-stopfail"}).Draw(t, "kind")
 		}
@@ -530,6 +605,7 @@ func TestFixed(t *testing.T) {
 	vh.Fixed(t, prop, "teardown-while-running", Case{NTasks: 1, Ops: []Op{{Kind: "start"}, {Kind: "stop"}, {Kind: "start"}, {Kind: "destroy"}}}, vh.Confirmed(run))
 	vh.Fixed(t, prop, "task-death-ends-run", Case{NTasks: 2, Ops: []Op{{Kind: "start"}, {Kind: "taskdeath"}}}, vh.Confirmed(run))
 	vh.Fixed(t, prop, "failed-start", Case{NTasks: 1, Ops: []Op{{Kind: "start"}, {Kind: "stop"}, {Kind: "start-taskfail"}}}, vh.Confirmed(run))
+	vh.Fixed(t, prop, "forced-destroy-queued-behind-start", Case{NTasks: 2, Ops: []Op{{Kind: "start"}, {Kind: "stop"}, {Kind: "destroy-during-start"}}}, vh.Confirmed(run))
 	vh.Fixed(t, prop, "stop-fails-in-the-tasks", Case{NTasks: 2, Ops: []Op{{Kind: "start"}, {Kind: "stop"}, {Kind: "start"}, {Kind: "stop-taskfail"}}}, vh.Confirmed(run))
 	vh.Fixed(t, prop, "graceful-destroy-while-running", Case{NTasks: 1, Ops: []Op{{Kind: "start"}, {Kind: "stop"}, {Kind: "start"}, {Kind: "destroy-graceful"}}}, vh.Confirmed(run))
 	for _, m := range []string{"before", "leave", "task"} {
